@@ -803,3 +803,9 @@ def replay(ctx, doc):
 def probe_known(ctx, finding):
     obs = run_scenario(finding["replay"])
     return any(f["signature"] == finding["signature"] for o in obs for f in o["fails"])
+
+
+# the long-lived process: the same probe session after earlier sessions of the same server (props/history.py)
+from props import history as _history  # noqa: E402
+
+correspondence, search, replay = _history.attach(PID, correspondence, search, replay, pasts=['second-login-with-a-listener', 'second-login-with-a-parked-data-connection', 'every-passive-port-busy', 'backend-failures', 'plain-session'])
